@@ -125,6 +125,20 @@ def record(res, q, replay=None):
             res.inconclusive.append(dict(obligation=q.name, why=out[1], model={k: v for k, v in list(q.model.items())[:12]}))
             res.ob(q.name, eng, "undischarged", "candidate did not reproduce natively: %s" % out[1], q.secs, sample, q.nontrivial)
         return
+    if getattr(q, "alt_search", None) and replay:
+        # the solver could not decide the obligation; a simpler query whose models are candidate counterexamples of the
+        # same obligation is tried (the native replay decides whether a model really is one)
+        q2 = Query(q.name + " [counterexample search]", list(q.alt_search), expect="unsat", mode=q.mode, timeout=q.timeout, meta=q.meta)
+        _run(q2)
+        q.secs += q2.secs
+        if q2.status == "sat":
+            q.model = q2.model
+            out = replay(q)
+            if out is not None and out[0] == "violated":
+                _, what, obj, role = out
+                st = res.violation(what, obj, role)
+                res.ob(q.name, eng + "+replay", st, what, q.secs, dict(sample, model=obj), q.nontrivial)
+                return
     res.ob(q.name, eng, "undischarged", "%s %s" % (q.status, getattr(q, "raw", "")[:200].replace("\n", " ")), q.secs, sample, q.nontrivial)
 
 
